@@ -145,7 +145,14 @@ pub fn tyann(t: &Type) -> String {
 
 /// `None` when the expression uses something outside the protocol (tolerant-ast error nodes)
 pub fn expr(e: &Expr) -> Option<String> {
-    Some(match e.expr_kind() {
+    expr_with(e, &|_, s| s)
+}
+
+/// the same printer over `Expr<T>` for any node data `T` (e.g. the typechecker's `Expr<Option<Type>>`); every node's text is
+/// passed through `wrap` together with the node (`expr` = the identity wrap)
+pub fn expr_with<T>(e: &Expr<T>, wrap: &dyn Fn(&Expr<T>, String) -> String) -> Option<String> {
+    let expr = |x: &Expr<T>| expr_with(x, wrap);
+    Some(wrap(e, match e.expr_kind() {
         ExprKind::Lit(l) => format!("(lit {})", lit(l)),
         ExprKind::Var(v) => format!("(var {})", var(*v)),
         ExprKind::Slot(s) => format!(
@@ -228,7 +235,7 @@ pub fn expr(e: &Expr) -> Option<String> {
         }
         #[allow(unreachable_patterns)]
         _ => return None,
-    })
+    }))
 }
 
 pub fn pattern_sx(elems: &[PatternElem]) -> String {
